@@ -42,7 +42,9 @@ def source_of(case) -> str:
     if "src" in case:
         return case["src"]
     sep = case.get("sep", "")
-    return sep.join("{% " + (n + " " + ALPHABET.get(n, "")).strip() + " %}" for n in case["tags"])
+    hy = case.get("hy", 0)  # whitespace control: bit 0 = hyphen after every start delimiter, bit 1 = before every end delimiter
+    lo, hi = "{%" + ("-" if hy & 1 else ""), ("-" if hy & 2 else "") + "%}"
+    return sep.join(lo + " " + (n + " " + ALPHABET.get(n, "")).strip() + " " + hi for n in case["tags"])
 
 
 def _summary(a) -> dict:
@@ -178,7 +180,7 @@ def _enumerate(ctx: core.Ctx, shard: int, nshards: int, maxlen: int, stride: int
             if stride > 1 and n == maxlen and ((idx // nshards) + ctx.seed) % stride:
                 continue
             for extra in (False, True):
-                ctx.run({"tags": list(seq), "extra": extra, "sep": "" if idx % 3 else " t "}, enumerated=True)
+                ctx.run({"tags": list(seq), "extra": extra, "sep": "" if idx % 3 else " t ", "hy": (idx // 3) % 4}, enumerated=True)
 
 
 @st.composite
@@ -203,7 +205,7 @@ def longer(draw):
     if r.random() < 0.6:
         while stack:
             seq.append("end" + stack.pop())
-    return {"tags": seq, "extra": r.random() < 0.6, "sep": r.choice(["", " ", "\n", "x"])}
+    return {"tags": seq, "extra": r.random() < 0.6, "sep": r.choice(["", " ", "\n", "x"]), "hy": r.choice([0, 0, 1, 2, 3])}
 
 
 @st.composite
